@@ -45,6 +45,57 @@ Proof.
   inversion H as [|? ? Ha H']; subst. destruct (IH (do_action p t e a s) H') as (I1 & I2 & I3).
   rewrite I1, I2, I3. destruct a; cbn in Ha; try contradiction; repeat split.
 Qed.
+
+(* ---- an id that has fired is gone for good (C04), in terms of Steps *)
+Lemma gone_sched i s s' : sched s s' -> gone_st i s -> gone_st i s'.
+Proof. intros (_ & _ & En & Hi & _) G. unfold gone_st in *. rewrite En. eapply gone_incl; eassumption. Qed.
+
+Lemma gone_call i c s : call_ok tb c s -> gone_st i s -> gone_st i (after tb c s) /\ (forall h, c = CPost h -> e_id h <> i).
+Proof.
+  intros Hok G. destruct c as [x t e|h]; cbn [after].
+  - destruct Hok as (_ & _ & Hc). pose proof (fire_event_kmove tb x t e s Hc) as H. unfold core_of in H.
+    split; [exact (proj1 (gone_kmove i _ _ _ _ _ _ _ _ _ H G)) | discriminate].
+  - destruct Hok as [Hh Hl]. pose proof (pend_step_kmove tb h s Hh Hl) as H. unfold core_of in H.
+    destruct (gone_kmove i _ _ _ _ _ _ _ _ _ H G) as [A B]. split; [exact A|].
+    intros h' E. inversion E; subst h'. intros E'. apply B. left. exact E'.
+Qed.
+
+Lemma fired_is_gone h s : wf s -> call_ok tb (CPost h) s -> gone_st (e_id h) (after tb (CPost h) s).
+Proof.
+  intros [Hnd Hlt] [Hh _]. cbn [after]. destruct (pend_step_shape tb h s) as (n2 & q2 & o2 & U & E).
+  pose proof (gone_umoves (e_id h) _ _ U) as G. cbn [fst snd] in G.
+  unfold core_of in E.
+  pose proof (f_equal (fun k : core => snd (fst (fst k))) E) as E2. pose proof (f_equal (fun k : core => snd (fst k)) E) as E3.
+  cbn [fst snd] in E2, E3. unfold gone_st. rewrite E2, E3. apply G. split.
+  - rewrite Forall_forall in Hlt. apply Hlt, head_in, Hh.
+  - apply find_live_none. intros x Hx Ex. exfalso. apply (remove_id_gone (e_id h) (queue s) Hnd). apply in_map_iff. exists x. split; [exact Ex | exact Hx].
+Qed.
+
+Lemma Steps_gone i sA cs s : Steps tb sA cs s -> gone_st i sA ->
+  gone_st i s /\ forall s1 h, In (s1, CPost h) cs -> e_id h <> i.
+Proof.
+  intros H G. induction H as [|cs s s' H IH Hs|cs s c H IH Hok].
+  - split; [exact G | intros ? ? []].
+  - destruct IH as [A B]. split; [eapply gone_sched; eassumption | exact B].
+  - destruct IH as [A B]. destruct (gone_call i c s Hok A) as [A' B']. split; [exact A'|].
+    intros s1 h Hin. apply in_app_or in Hin. destruct Hin as [Hin|[E|[]]]; [exact (B s1 h Hin)|]. inversion E; subst. apply B'. reflexivity.
+Qed.
+
+Lemma wf_steps sA cs s : Steps tb sA cs s -> wf sA -> wf s /\ Forall (fun sc => wf (fst sc)) cs.
+Proof.
+  intros H Hw.
+  exact (Steps_inv tb (@wf W) (fun s1 s2 H1 Hs => proj1 (proj2 (proj2 (proj2 (proj2 (proj2 Hs))))) H1)
+           (fun s1 c H1 Hok => wf_call c s1 H1 Hok) sA cs s Hw H).
+Qed.
+
+(* no posted entry fires twice *)
+Theorem posted_at_most_once s0 cs s cs1 s1 h cs2 : Steps tb s0 cs s -> wf s0 -> cs = cs1 ++ (s1, CPost h) :: cs2 ->
+  forall s2 h2, In (s2, CPost h2) cs2 -> e_id h2 <> e_id h.
+Proof.
+  intros H Hw E. destruct (Steps_split tb s0 cs s H cs1 (s1, CPost h) cs2 E) as (A & B & C). cbn [fst snd] in A, B, C.
+  pose proof (proj1 (wf_steps s0 cs1 s1 A Hw)) as Hw1.
+  exact (proj2 (Steps_gone (e_id h) _ cs2 s C (fired_is_gone h s1 Hw1 B))).
+Qed.
 End KF.
 
 (* the posting an event function with summary h makes when called on e *)
@@ -170,7 +221,7 @@ Qed.
 (* ------------------------------------------------------------------ preservation *)
 Lemma G_sched s s' : G s -> sched s s' -> G s'.
 Proof.
-  intros (Hj & Hq & Hw & Hfq & Hfu) Hs. pose proof Hs as (_ & Ew & _ & Hi & _ & Hwf).
+  intros (Hj & Hq & Hw & Hfq & Hfu) Hs. pose proof Hs as (_ & Ew & _ & Hi & _ & Hwf & _).
   split; [eapply J_sched; eassumption|]. split; [eapply QE_sched; eassumption|]. split; [exact (Hwf Hw)|]. split.
   - intros x c' Hx Hp. rewrite Ew. apply Hfq; [apply Hi, Hx | exact Hp].
   - intros x y cx cy Hx Hy. apply Hfu; apply Hi; assumption.
@@ -410,6 +461,95 @@ Proof.
   destruct (Z.eqb_spec v n) as [->|_]; [|exact Hv]. exfalso.
   destruct (Hmv n c eq_refl) as (Hl & _ & Ha). cbv zeta in Hl, Ha. rewrite Hl in Hv. inversion Hv; subst l.
   exact (fixed_ok_source cm cev _ c Hfx Hin Ha c' Hpa).
+Qed.
+
+(* ------------------------------------------------------------------ the fate of a pending posted entry *)
+Lemma queue_after_call (s : st cworld) c y : wf_model cm = true -> G s -> call_ok tb c s -> In y (queue s) ->
+  In y (queue (after tb c s)) \/ c = CPost y.
+Proof.
+  intros Hwf (Hj & Hq & Hw & _) Hok Hy. destruct c as [x t e|h].
+  - left. destruct (call_moves s x t e Hwf Hj Hok) as (j & cev & -> & En & Hin & _ & _).
+    destruct (posting (ce_kind cev) e) as [[[n T] k]|] eqn:Ep.
+    + destruct (ce_kind cev) as [c1|c1 mark [[T1 k1]|]| |] eqn:Ek; destruct e as [n1|n1 m1]; cbn in Ep; try discriminate.
+      inversion Ep; subst n1 T1 k1.
+      destruct (fixed_recovery_posts cm nodes edges init maxtime monitor s _ t (EE n m1) Hwf Hj Hok j cev c1 mark T k n m1 eq_refl En Ek eq_refl)
+        as (_ & _ & Eq & _).
+      cbv zeta in Eq. fold tb in Eq. rewrite Eq. right. exact Hy.
+    + rewrite (event_queue_quiet s j cev t e En Ep). exact Hy.
+  - destruct (posted_queue s h Hq Hok) as (extra & Eq & _). fold tb in Eq. rewrite Eq.
+    destruct Hok as [Hh _]. destruct (Nat.eq_dec (e_id y) (e_id h)) as [E|E].
+    + right. f_equal. symmetry. exact (NoDup_id_inj (queue s) y h (proj1 Hw) Hy (head_in _ _ Hh) E).
+    + left. apply in_app_iff. right. apply remove_id_keeps; assumption.
+Qed.
+
+(* a pending live entry stays in the queue until the very call that fires it *)
+Theorem entry_fate sA cs s y : wf_model cm = true -> fixed_ok cm = true -> Steps tb sA cs s -> G sA ->
+  In y (queue sA) -> e_live y = true -> In y (queue s) \/ exists s1, In (s1, CPost y) cs.
+Proof.
+  intros Hwf Hfx H HG Hy Hl. induction H as [|cs s s' H IH Hs|cs s c H IH Hok].
+  - left. exact Hy.
+  - destruct IH as [IH|IH]; [|right; exact IH]. left.
+    pose proof (proj1 (Steps_inv tb G G_sched (fun s c Hk Hok => G_call s c Hwf Hfx Hk Hok) _ cs s HG H)) as (_ & _ & Hw & _).
+    destruct Hs as (_ & _ & _ & _ & _ & _ & Hkeep). exact (Hkeep Hw y IH Hl).
+  - destruct IH as [IH|[s1 IH]]; [|right; exists s1; apply in_app_iff; left; exact IH].
+    pose proof (proj1 (Steps_inv tb G G_sched (fun s c Hk Hok => G_call s c Hwf Hfx Hk Hok) _ cs s HG H)) as HGs.
+    destruct (queue_after_call s c y Hwf HGs Hok IH) as [A| ->]; [left; exact A|].
+    right. exists s. apply in_app_iff. right. left. reflexivity.
+Qed.
+
+(* ------------------------------------------------------------------ C07_fixed_recovery *)
+(* An infection with fixed recovery entered at time t on (n, m) posts the entry y = (t + T, node n,
+   program k).  At every later point of the run: either y is still pending - and then n is in a
+   compartment from which program k takes it - or y was fired by exactly one later call, a posted
+   call at handler time t + T, which moved n along a posted arrow of the diagram. *)
+Theorem fixed_recovery_fate rs ls ds cs s cs1 s1 j cev t n m cs2 c mark T k :
+  wf_model cm = true -> fixed_ok cm = true -> graph_okb nodes edges = true -> init_ok cm nodes init = true -> NoDup nodes ->
+  Steps tb (setup_state tb rs ls ds) cs s ->
+  cs = cs1 ++ (s1, CEv (mpi monitor, j, mk_ev j cev) t (EE n m)) :: cs2 ->
+  nth_error (cm_events cm) j = Some cev -> ce_kind cev = HLeft c mark (Some (T, k)) ->
+  let y := {| e_time := Qred (t + T); e_id := nextid s1; e_live := true; e_proc := mpi monitor;
+              e_elem := EN n; e_prog := k; e_rep := None |} in
+  (In y (queue s) /\ forall c', pnode k c' -> exists l, getc (cw_st (world s)) n = Some l /\ In (l, c') (posted_arrows cm))
+  \/ (exists s2, In (s2, CPost y) cs2 /\ call_time (CPost y) = Qred (t + T)
+        /\ (forall s3 h3, In (s3, CPost h3) cs2 -> e_id h3 = e_id y -> s3 = s2 /\ h3 = y)
+        /\ forall v, getc (cw_st (world (after tb (CPost y) s2))) v <> getc (cw_st (world s2)) v ->
+              v = n /\ exists l c', getc (cw_st (world s2)) n = Some l /\ getc (cw_st (world (after tb (CPost y) s2))) n = Some c'
+                /\ In (l, c') (posted_arrows cm) /\ pnode k c').
+Proof.
+  intros Hwf Hfx Hg Hi Hnd H E En Ek. cbv zeta.
+  set (cl := CEv (mpi monitor, j, mk_ev j cev) t (EE n m)) in *.
+  destruct (Steps_split tb _ cs s H cs1 (s1, cl) cs2 E) as (A & B & C). cbn [fst snd] in A, B, C.
+  destruct (G_steps rs ls ds cs1 s1 Hwf Hfx Hg Hi Hnd A) as [G1 _].
+  pose proof (G_call s1 cl Hwf Hfx G1 B) as G2.
+  destruct (fixed_recovery_posts cm nodes edges init maxtime monitor s1 _ t (EE n m) Hwf (proj1 G1) B j cev c mark T k n m eq_refl En Ek eq_refl)
+    as (_ & _ & Eq & _). cbv zeta in Eq. fold tb in Eq. fold cl in Eq.
+  set (y := {| e_time := Qred (t + T); e_id := nextid s1; e_live := true; e_proc := mpi monitor; e_elem := EN n; e_prog := k; e_rep := None |}) in *.
+  assert (Hy : In y (queue (after tb cl s1))) by (rewrite Eq; left; reflexivity).
+  destruct (entry_fate _ cs2 s y Hwf Hfx C G2 Hy eq_refl) as [Hq|[s2 Hc]].
+  - left. split; [exact Hq|]. intros c' Hp.
+    destruct (G_steps rs ls ds cs s Hwf Hfx Hg Hi Hnd H) as [(_ & _ & _ & Hfq & _) _].
+    destruct (Hfq y c' Hq Hp) as (_ & n' & l & En' & Hl & Hpa). cbn [e_elem] in En'. inversion En'; subst n'.
+    exists l. split; assumption.
+  - right. exists s2. split; [exact Hc|]. split; [reflexivity|].
+    destruct (in_split _ _ Hc) as [d1 [d2 Ed]].
+    destruct (Steps_split tb _ cs2 s C d1 (s2, CPost y) d2 Ed) as (A2 & B2 & C2). cbn [fst snd] in A2, B2, C2.
+    pose proof (proj1 (Steps_inv tb G G_sched (fun s c Hk Hok => G_call s c Hwf Hfx Hk Hok) _ d1 s2 G2 A2)) as G3.
+    split.
+    + (* only once: by the wf of the queue ids every other posted call of cs2 carries another id *)
+      intros s3 h3 H3 Eid.
+      assert (Hw2 : wf (after tb cl s1)) by (exact (proj1 (proj2 (proj2 G2)))).
+      rewrite Ed in H3. apply in_app_or in H3. destruct H3 as [H3|[H3|H3]].
+      * (* before the firing: then y would have been gone already *)
+        exfalso. destruct (in_split _ _ H3) as [e1 [e2 Ee]].
+        destruct (Steps_split tb _ d1 s2 A2 e1 (s3, CPost h3) e2 Ee) as (A3 & B3 & C3). cbn [fst snd] in A3, B3, C3.
+        pose proof (proj1 (wf_steps tb _ e1 s3 A3 Hw2)) as Hw3.
+        pose proof (fired_is_gone tb h3 s3 Hw3 B3) as Gn. rewrite Eid in Gn.
+        destruct (Steps_gone tb (e_id y) _ e2 s2 C3 Gn) as [[_ Gq] _].
+        destruct B2 as [Hh Hl]. rewrite find_live_none in Gq. rewrite (Gq y (head_in _ _ Hh) eq_refl) in Hl. discriminate.
+      * inversion H3; subst s3 h3. split; reflexivity.
+      * exfalso. exact (posted_at_most_once tb _ cs2 s d1 s2 y d2 C Hw2 Ed s3 h3 H3 Eid).
+    + intros v Hv. destruct (posted_diagram s2 y G3 B2 v Hv) as (l & c' & H1 & H2 & H3 & _ & H5 & H6).
+      cbn [e_elem] in H5. inversion H5; subst v. split; [reflexivity|]. exists l, c'. repeat split; assumption.
 Qed.
 
 End CFx.
